@@ -1,22 +1,15 @@
 (* Vec/RvStatements.v — the statements of C04 / C16 in terms of the executable agreement checker, the
-   `_refuted` witnesses of the remaining known class in existential form, the bounded retention count, and
-   the directory theorem for a whole commit. *)
+   bounded retention count, and the directory theorem for a whole commit.  (The `_refuted` witnesses of
+   findings 3/4 are gone: on the model of the repaired write() they agree, RvFindings.wit34_agree.) *)
 From Anydb Require Import Common.Base Common.LE Vec.RegionSpec Vec.RvBase Vec.RvChange Vec.RvChangeProofs Vec.RvModel
   Vec.RvRollback Vec.RvSpec Vec.RvInst Vec.RvFindings Vec.RvSmallScope.
 
 (* C04: every disciplined commit/rollback history (RvFindings.op_disciplined) agrees with the reference *)
 Definition C04_stmt : Prop := forall k0 h, disciplined k0 h = true -> agree k0 h = true.
-Definition C04_outside_known_stmt : Prop :=
-  forall k0 h, disciplined k0 h = true -> KnownClass_rollback_of_truncation k0 h = false -> agree k0 h = true.
-
-Lemma C04_refuted_truncation_push :
-  exists k0 h, disciplined k0 h = true /\ KnownClass_rollback_of_truncation k0 h = true /\ agree k0 h = false.
-Proof. exists 3, wit3. vm_compute. auto. Qed.
-Lemma C04_refuted_truncation_delete :
-  exists k0 h, disciplined k0 h = true /\ KnownClass_rollback_of_truncation k0 h = true /\ agree k0 h = false.
-Proof. exists 3, wit4. vm_compute. auto. Qed.
-Lemma C04_stmt_false : ~ C04_stmt.
-Proof. intros H. specialize (H 3 wit3 (proj1 wit3_refutes)). rewrite (proj2 wit3_refutes) in H. discriminate. Qed.
+(* the class of the repaired findings 3/4 is inhabited by disciplined histories, and they agree *)
+Lemma C04_rollback_of_truncation_covered :
+  exists k0 h, disciplined k0 h = true /\ Class_rollback_of_truncation k0 h = true /\ agree k0 h = true.
+Proof. exists 3, wit34. exact (proj2 (proj2 (proj2 wit34_agree))). Qed.
 
 (* C16_count, bounded: n commits with increasing stamps (one push before each) under retention k, then
    n + 1 rollbacks: exactly min k n succeed, the next is refused, and every step agrees with the reference *)
@@ -46,6 +39,12 @@ Section DIR.
 Context {T : Type} (tsize : N) (enc : T -> list N) (dec : list N -> T).
 Notation rv := (@rv T).
 
+Lemma write_extend_changes (s : rv) :
+  changes (fst (write_extend tsize dec s)) = changes s /\ k (fst (write_extend tsize dec s)) = k s.
+Proof.
+  unfold write_extend. destruct (real_stored_len s <? stored_len s); [|cbn; auto].
+  destruct (vr_truncate_write _ _ _); cbn; auto.
+Qed.
 Lemma write_data_changes (s : rv) : changes (fst (write_data s)) = changes s /\ k (fst (write_data s)) = k s.
 Proof.
   unfold write_data. destruct (negb (len (pushed s) =? 0)).
@@ -63,14 +62,15 @@ Proof.
   unfold write_holes. destruct (holes s); [|cbn; auto]. destruct b; [|cbn; auto].
   cbn [holes_region set_hsh]. destruct (holes_region s); cbn; auto.
 Qed.
-Lemma rv_write_changes (s : rv) : changes (fst (rv_write s)) = changes s /\ k (fst (rv_write s)) = k s.
+Lemma rv_write_changes (s : rv) : changes (fst (rv_write tsize dec s)) = changes s /\ k (fst (rv_write tsize dec s)) = k s.
 Proof.
   unfold rv_write.
   assert (H0 : changes (write_header_if_needed s) = changes s /\ k (write_header_if_needed s) = k s)
     by (unfold write_header_if_needed; destruct (hdr_modified s); cbn; auto).
   set (s0 := write_header_if_needed s) in *. cbv zeta.
   match goal with |- context [if ?c then _ else _] => destruct c end; [cbn; auto|].
-  pose proof (write_data_changes s0) as H1. destruct (write_data s0) as [s1 [e|]]; cbn [fst] in *; [intuition congruence|].
+  pose proof (write_extend_changes s0) as H0'. destruct (write_extend tsize dec s0) as [se [e|]]; cbn [fst] in *; [intuition congruence|].
+  pose proof (write_data_changes se) as H1. destruct (write_data se) as [s1 [e|]]; cbn [fst] in *; [intuition congruence|].
   pose proof (write_updates_changes (real_stored_len s0 <? stored_len s0) s1) as H2.
   destruct (write_updates _ s1) as [s2 [u|e|]]; cbn [fst] in *; try (intuition congruence).
   pose proof (write_holes_changes (has_stored_holes s0) s2) as H3. intuition congruence.
@@ -92,12 +92,12 @@ Proof.
   unfold stamped_write.
   pose proof (rv_write_changes (update_stamp st s1)) as [Hw _].
   assert (Hu : changes (update_stamp st s1) = changes s1) by (unfold update_stamp; destruct (stamp s1 =? st); reflexivity).
-  destruct (rv_write (update_stamp st s1)) as [s2 r] eqn:Ew. cbn [fst] in Hw.
+  destruct (rv_write tsize dec (update_stamp st s1)) as [s2 r] eqn:Ew. cbn [fst] in Hw.
   exists l. split.
   - destruct r as [b|e|]; cbn [fst]; cbn; congruence.
   - split; [exact Hl|]. split; [exact Hg|]. intros x b Hx. destruct (Hin x b Hx) as [[-> _]|(H1 & H2 & H3)]; [now left|right; auto].
 Qed.
 (* k = 0 disables recording: a commit is a plain stamped write and leaves the change directory alone *)
-Theorem commit_k0_is_stamped_write (s : rv) st : k s = 0 -> rv_commit tsize enc dec st s = stamped_write st s.
+Theorem commit_k0_is_stamped_write (s : rv) st : k s = 0 -> rv_commit tsize enc dec st s = stamped_write tsize dec st s.
 Proof. unfold rv_commit. intros ->. reflexivity. Qed.
 End DIR.
